@@ -34,9 +34,9 @@ def run(ctx):
         P.contains("K2-contains", r, "Spn", "a domain rename (local or replicated) would not regenerate the spns of existing entries")
     P.check_registries("K2-propagated", PRE + POST, {"Spn", "Domain"})
     P.siblings_agree("K2-siblings", "run_pre_modify", "run_pre_batch_modify",
-                     "a plugin present in only one of the two modify flavours leaves the other flavour unchecked")
+                     "a plugin present in only one of the two modify flavours leaves the other flavour unchecked", {"Spn", "Domain"})
     P.siblings_agree("K2-siblings", "run_post_modify", "run_post_batch_modify",
-                     "a plugin present in only one of the two modify flavours leaves the other flavour unchecked")
+                     "a plugin present in only one of the two modify flavours leaves the other flavour unchecked", {"Spn"})
     P.check_ops("K2-op", PRE + POST)
     for hook in ["pre_create_transform", "pre_modify", "pre_batch_modify", "post_modify", "post_batch_modify", "post_repl_incremental"]:
         hook_nontrivial(ctx, "K2-hook-body", "spn", "Spn", hook)
